@@ -58,11 +58,20 @@ func RunCheck(r *vk.Run, cfgs []*Config, o CheckOpts) {
 		o.JobMillis = 1500
 	}
 	e := &Explorer{Configs: cfgs, Procs: procs, JobMillis: o.JobMillis, Dir: dir, Expired: r.Expired}
-	var names []string
+	maxBound := o.MaxBound
+	boundOf := func(c *Config) int {
+		if c.MaxBound > 0 {
+			return c.MaxBound
+		}
+		return o.MaxBound
+	}
 	for _, c := range cfgs {
-		names = append(names, c.Name)
+		if boundOf(c) > maxBound {
+			maxBound = boundOf(c)
+		}
 	}
 	completed := -1
+	deeper := 0 // configs completed beyond o.MaxBound
 	var last map[string]*Stats
 	perBound := []map[string]any{}
 	var totalExecs, totalPoints, totalReplays int64
@@ -105,8 +114,14 @@ func RunCheck(r *vk.Run, cfgs []*Config, o CheckOpts) {
 		}
 		return
 	}
-	for b := 0; b <= o.MaxBound; b++ {
+	for b := 0; b <= maxBound; b++ {
 		t0 := time.Now()
+		var names []string
+		for _, c := range cfgs {
+			if boundOf(c) >= b {
+				names = append(names, c.Name)
+			}
+		}
 		st, complete, err := e.RunBound(names, b)
 		if err != nil {
 			checkError("%v", err)
@@ -138,8 +153,12 @@ func RunCheck(r *vk.Run, cfgs []*Config, o CheckOpts) {
 		fmt.Printf("bound %d: %s schedules=%d points=%d (max %d per schedule, max %d decisions) distinct_observations=%d ends=%v violating_keys=%d resumes=%d wall=%.1fs\n",
 			b, map[bool]string{true: "complete", false: "INCOMPLETE (deadline)"}[complete], ex, pts, maxPts, maxDec, distinct, ends, nf, rep, time.Since(t0).Seconds())
 		perBound = append(perBound, map[string]any{"bound": b, "complete": complete, "schedules": ex, "points": pts, "distinct_observations": distinct, "ends": ends})
-		if last == nil || complete {
+		if last == nil {
 			last = st
+		} else if complete {
+			for n, x := range st {
+				last[n] = x
+			}
 		}
 		if report(st) > 0 {
 			anyNew = true
@@ -148,7 +167,12 @@ func RunCheck(r *vk.Run, cfgs []*Config, o CheckOpts) {
 			r.Capped()
 			break
 		}
-		completed = b
+		if b <= o.MaxBound {
+			completed = b
+		} else {
+			deeper = len(names)
+			fmt.Printf("bound %d was run on %d of %d configs\n", b, len(names), len(cfgs))
+		}
 		if anyNew {
 			break // smallest bound showing a new violation: stop here
 		}
@@ -208,6 +232,7 @@ func RunCheck(r *vk.Run, cfgs []*Config, o CheckOpts) {
 		schedules int64
 		configs   int
 		example   string
+		seen      map[string]bool
 	}
 	notes := map[string]*noteAgg{}
 	for _, c := range cfgs {
@@ -226,7 +251,13 @@ func RunCheck(r *vk.Run, cfgs []*Config, o CheckOpts) {
 				notes[kind] = a
 			}
 			a.schedules += f.Count
-			a.configs++
+			if a.seen == nil {
+				a.seen = map[string]bool{}
+			}
+			if !a.seen[c.Name] {
+				a.seen[c.Name] = true
+				a.configs++
+			}
 			if a.example == "" || len(f.Choices) < 12 {
 				a.example = fmt.Sprintf("%s: %s (schedule of %d decisions, bound %d)", c.Name, f.Msg, len(f.Choices), f.Bound)
 			}
@@ -244,20 +275,21 @@ func RunCheck(r *vk.Run, cfgs []*Config, o CheckOpts) {
 		noteCov[k] = map[string]any{"schedules": a.schedules, "configs": a.configs, "example": a.example}
 	}
 	cov := map[string]any{
-		"states":                        states,
-		"transitions":                   int(totalPoints),
-		"traces_validated_against_impl": int(totalExecs),
-		"completed_preemption_bound":    completed,
-		"requested_preemption_bound":    o.MaxBound,
-		"deadlocks_found":               int(deadlocks),
-		"configs":                       len(cfgs),
-		"per_bound":                     perBound,
-		"per_config_at_last_bound":      table,
-		"worker_processes":              procs,
-		"worker_jobs":                   int(e.Jobs),
-		"unit_resume_executions":        int(totalReplays),
-		"determinism_replays":           detChecked,
-		"rule":                          o.What + "; states = distinct observation logs at the last bound summed over configs; transitions = scheduling points executed; every schedule is a complete execution of the real code",
+		"states":                             states,
+		"transitions":                        int(totalPoints),
+		"traces_validated_against_impl":      int(totalExecs),
+		"completed_preemption_bound":         completed,
+		"requested_preemption_bound":         o.MaxBound,
+		"configs_completed_one_bound_deeper": deeper,
+		"deadlocks_found":                    int(deadlocks),
+		"configs":                            len(cfgs),
+		"per_bound":                          perBound,
+		"per_config_at_last_bound":           table,
+		"worker_processes":                   procs,
+		"worker_jobs":                        int(e.Jobs),
+		"unit_resume_executions":             int(totalReplays),
+		"determinism_replays":                detChecked,
+		"rule":                               o.What + "; states = distinct observation logs at the last bound summed over configs; transitions = scheduling points executed; every schedule is a complete execution of the real code",
 	}
 	if len(noteCov) > 0 {
 		cov["anomalies_not_violations"] = noteCov
